@@ -130,9 +130,9 @@ def dep_cone(target_v):
     return sorted(x[:-3] + ".v" for x in seen if os.path.exists(os.path.join(COQ, x[:-3] + ".v")))
 
 
-def coq_build(pid):
+def coq_build(pid, extra=()):
     ensure_makefile()
-    targets = ["props/%s.vo" % pid, "theories/Run.vo"]
+    targets = ["props/%s.vo" % pid, "theories/Run.vo"] + ["theories/%s.vo" % m for m in extra]
     rc, out, dt = run(["make", "-j%d" % NPROC] + targets, cwd=COQ, timeout=2400)
     failing = None
     if rc != 0:
@@ -232,10 +232,10 @@ def parse_coq_value(txt):
 
 
 def eval_shard(args):
-    idx, work, flavour, cases = args
-    src = os.path.join(work, "cases_%s_%d.v" % (flavour, idx))
+    idx, work, flavour, cases, imports = args
+    src = os.path.join(work, "cases_%s_%d_%s.v" % (flavour, idx, hashlib.sha256(imports.encode()).hexdigest()[:6]))
     with open(src, "w") as f:
-        f.write("From MLA Require Import Base Stream Inst Run.\nOpen Scope N_scope.\n")
+        f.write("From MLA Require Import %s.\nOpen Scope N_scope.\n" % imports)
         f.write("Definition K := %s.\n" % ("consts_verif" if flavour == "scaled" else "consts_prod"))
         for i, c in enumerate(cases):
             f.write('Goal True. idtac "@@ %d". Abort.\n' % i)
@@ -258,9 +258,9 @@ def eval_shard(args):
     return idx, results, err, dt
 
 
-def model_eval(cases, flavour, work, shard_size=40):
+def model_eval(cases, flavour, work, shard_size=40, imports="Base Stream Inst Run"):
     shards = [cases[i:i + shard_size] for i in range(0, len(cases), shard_size)]
-    jobs = [(i, work, flavour, sh) for i, sh in enumerate(shards)]
+    jobs = [(i, work, flavour, sh, imports) for i, sh in enumerate(shards)]
     out = [None] * len(cases)
     errors = []
     with concurrent.futures.ThreadPoolExecutor(max_workers=NPROC) as ex:
@@ -325,7 +325,7 @@ def main(argv):
         violations.append(("tieA", "tools/src2v.py failed: " + msg[-300:], None))
 
     # 2. proofs
-    ok_build, out, failing, dt = coq_build(pid)
+    ok_build, out, failing, dt = coq_build(pid, cfg.get("run_modules", ()))
     log("coq build of props/%s.vo: %s (%.0fs)" % (pid, "ok" if ok_build else "FAILED at " + str(failing), dt))
     proof_broken = None
     axioms = {}
@@ -416,7 +416,8 @@ def main(argv):
         mcases = [c for c in cases if c.get("fn")]
         mres = [None] * len(mcases)
         if mcases and ok_build:
-            mres, errs = model_eval(mcases, flavour, work)
+            mres, errs = model_eval(mcases, flavour, work, shard_size=job.get("shard", 40),
+                                    imports=job.get("imports", "Base Stream Inst Run"))
             model_errors.extend(errs)
         for c in cases:
             evaluations += 1
